@@ -163,6 +163,25 @@ pub fn deep_asts() -> Vec<Ast> {
             out.push(l);
         }
     }
+    // homogeneous chains: ONE connective repeated 1..14 times over six names (so operands
+    // repeat from the seventh on), plain and with every third operand negated, both nestings
+    for op in ALL_BINS {
+        for depth in 1..=14usize {
+            for neg in [false, true] {
+                let t = |i: usize| if neg && i % 3 == 2 { Ast::not(Ast::var(names[i % 6])) } else { Ast::var(names[i % 6]) };
+                let mut r = t(depth);
+                for i in (0..depth).rev() {
+                    r = Ast::bin(op, t(i), r);
+                }
+                out.push(r);
+                let mut l = t(0);
+                for i in 0..depth {
+                    l = Ast::bin(op, l, t(i + 1));
+                }
+                out.push(l);
+            }
+        }
+    }
     for depth in 1..=12usize {
         // quantifier tower over a fixed 6-variable body
         let mut body = Ast::bin(Bin::Xor, Ast::bin(Bin::And, Ast::var("a"), Ast::var("b")), Ast::bin(Bin::Or, Ast::var("c"), Ast::bin(Bin::Iff, Ast::var("d"), Ast::bin(Bin::Implies, Ast::var("e"), Ast::var("f")))));
